@@ -161,6 +161,8 @@ ExpectedItems(name, items) ==
 \* --------------------------------------------------------------------------------- defect instances: each makes the document invalid by the documented rules
 LongName == "a234567890123456789012345678901234567890123456789012345678901234567890123456789012345678901234567890123456789012345678901234567890"
 ChoiceConflictXml == "<DIAGNOSTIC-CONTRIBUTION-SET><SHORT-NAME>dcs</SHORT-NAME><COMMON-PROPERTIES><DIAGNOSTIC-COMMON-PROPS-VARIANTS><DIAGNOSTIC-COMMON-PROPS-CONDITIONAL><DEBOUNCE-ALGORITHM-PROPSS><DIAGNOSTIC-DEBOUNCE-ALGORITHM-PROPS><SHORT-NAME>props</SHORT-NAME><DEBOUNCE-ALGORITHM><DIAG-EVENT-DEBOUNCE-COUNTER-BASED><SHORT-NAME>abc</SHORT-NAME></DIAG-EVENT-DEBOUNCE-COUNTER-BASED><DIAG-EVENT-DEBOUNCE-TIME-BASED><SHORT-NAME>def</SHORT-NAME></DIAG-EVENT-DEBOUNCE-TIME-BASED></DEBOUNCE-ALGORITHM></DIAGNOSTIC-DEBOUNCE-ALGORITHM-PROPS></DEBOUNCE-ALGORITHM-PROPSS></DIAGNOSTIC-COMMON-PROPS-CONDITIONAL></DIAGNOSTIC-COMMON-PROPS-VARIANTS></COMMON-PROPERTIES></DIAGNOSTIC-CONTRIBUTION-SET>"
+\* an exclusive choice that is a group nested inside a sequence type (COMPU-SCALE: constant or rational coefficients)
+ChoiceConflict2Xml == "<COMPU-METHOD><SHORT-NAME>cm</SHORT-NAME><COMPU-INTERNAL-TO-PHYS><COMPU-SCALES><COMPU-SCALE><COMPU-CONST><VT>x</VT></COMPU-CONST><COMPU-RATIONAL-COEFFS><COMPU-NUMERATOR><V>1</V></COMPU-NUMERATOR></COMPU-RATIONAL-COEFFS></COMPU-SCALE></COMPU-SCALES></COMPU-INTERNAL-TO-PHYS></COMPU-METHOD>"
 NotANumberXml == "<I-SIGNAL-I-PDU><SHORT-NAME>Pdu</SHORT-NAME><I-PDU-TIMING-SPECIFICATIONS><I-PDU-TIMING><TRANSMISSION-MODE-DECLARATION><TRANSMISSION-MODE-TRUE-TIMING><CYCLIC-TIMING><TIME-PERIOD><TOLERANCE><ABSOLUTE-TOLERANCE><ABSOLUTE>not a number</ABSOLUTE></ABSOLUTE-TOLERANCE></TOLERANCE></TIME-PERIOD></CYCLIC-TIMING></TRANSMISSION-MODE-TRUE-TIMING></TRANSMISSION-MODE-DECLARATION></I-PDU-TIMING></I-PDU-TIMING-SPECIFICATIONS></I-SIGNAL-I-PDU>"
 \* <<document index, name of the defect class, defect>>
 DefectsD1 == {
@@ -171,6 +173,7 @@ DefectsD1 == {
   <<1, "unknown enum value", [k |-> "text", at |-> 15, p |-> "NO-SUCH-ITEM"]>>,
   <<1, "enum value unknown in context", [k |-> "text", at |-> 15, p |-> "SYSTEM-SIGNAL"]>>,
   <<1, "exclusive choice conflict", [k |-> "lastchild", at |-> 9, p |-> ChoiceConflictXml]>>,
+  <<1, "exclusive choice conflict", [k |-> "lastchild", at |-> 9, p |-> ChoiceConflict2Xml]>>,
   <<1, "repeated single-occurrence element", [k |-> "dupchild", at |-> 3, p |-> "CATEGORY"]>>,
   <<1, "repeated single-occurrence element", [k |-> "dupchild", at |-> 13, p |-> "LENGTH"]>>,
   \* the repetition is separated from the first occurrence by other sub elements
@@ -216,6 +219,8 @@ DefectsD1 == {
   <<1, "malformed entity", [k |-> "attr", at |-> 10, p |-> "UUID=\"R & D\""]>> }
 DefectsD2 == {
   <<2, "element not in the file's version", [k |-> "lastchild", at |-> 6, p |-> "<SHORT-NAME-FRAGMENTS/>"]>>,
+  \* a version-foreign element that is defined in a nested group of its parent (SDXF in SDG: since 4.2.1)
+  <<2, "element not in the file's version", [k |-> "lastchild", at |-> 3, p |-> "<ADMIN-DATA><SDGS><SDG GID=\"g\"><SDXF/></SDG></SDGS></ADMIN-DATA>"]>>,
   <<2, "attribute not in the file's version", [k |-> "attr", at |-> 7, p |-> "NAME-PATTERN=\"x\""]>>,
   <<2, "enum value not in the file's version", [k |-> "lastchild", at |-> 5, p |-> "<I-SIGNAL><SHORT-NAME>i</SHORT-NAME><DATA-TYPE-POLICY>TRANSFORMING-I-SIGNAL</DATA-TYPE-POLICY></I-SIGNAL>"]>>,
   <<2, "missing SHORT-NAME", [k |-> "dropchild", at |-> 9, p |-> "SHORT-NAME"]>>,
